@@ -288,9 +288,15 @@ def make_gate_obj(it, S, kt):
     gm = it.load_module('cirbo.core.circuit.gate')
     cls = gm.env['Gate']
     n, op, opc = S.nops(kt), S.op, S.opc
-    o = Obj(cls, {'_label': Sym(kt), '_gate_type': Sym(S.typ(kt)),
-                  '_operands': OpsSeq(n, (lambda i, kt=kt, op=op: op(kt, i)), (lambda g, kt=kt, opc=opc: opc(kt, g)))})
+    ops = OpsSeq(n, (lambda i, kt=kt, op=op: op(kt, i)), (lambda g, kt=kt, opc=opc: opc(kt, g)))
+    ops.owner = kt
+    ops.prefix = []
+    o = Obj(cls, {'_label': Sym(kt), '_gate_type': Sym(S.typ(kt)), '_operands': ops})
     return o
+
+
+def make_gate_obj_i(it, S, kt):
+    return make_gate_obj(it, S, kt)
 
 
 class UsersRef(Model):
@@ -417,6 +423,18 @@ class LabelList(Model):
 
     def _get(self, S):
         return getattr(S, self.w + '_n'), getattr(S, self.w + '_elem'), getattr(S, self.w + '_cnt')
+
+    prefix = []
+
+    @property
+    def n(self):
+        return self._get(self.h.S)[0]
+
+    def elem(self, i):
+        return self._get(self.h.S)[1](i)
+
+    def concrete_len(self, it=None):
+        return None
 
     def m_len(self, it):
         return Sym(self._get(self.h.S)[0])
